@@ -546,7 +546,7 @@ class Save(Op):
             if sc and not ops_aux.unsavable_aux(w, snap):
                 # every value of every supported type must be encodable (C07/C08), every
                 # self-contained IR savable (C01), every byte-storage state savable (C19)
-                return Exp("ok", value=None, owner=("C01", "C19", "C07", "C08"))
+                return Exp("ok", value=None, owner=("C01", "C19", "C07", "C08", "C14"))
             return None
         data = w.disk.files.get(op["path"])
         if data is None:
